@@ -8,6 +8,7 @@
 -/
 import ICal.Lemmas.Fold
 import ICal.Lemmas.FoldLines
+import ICal.Lemmas.FoldBytes
 namespace ICal.C06
 
 /-- Master statement, generic in the limit (`5 ≤ limit`: a 4-octet character must fit): the
@@ -149,5 +150,63 @@ theorem lines_roundtrip (ls : List Str)
     with CR (both are handled: `CR CR LF` breaks after the second CR only). -/
 example : ∀ l ∈ [['A', ':', 'b', CR], [CR, 'x'], List.replicate 80 'é'],
     l ≠ [] ∧ LF ∉ l ∧ l.head? ≠ some SP ∧ l.head? ≠ some HT ∧ l.head? ≠ some BOM := by decide
+
+/-- Octet level, exact form: the UTF-8 octets of a folded non-empty line, split on the octet
+    pair 13 10, are the encoding of the first segment followed by the encodings of SP + segment
+    for the further segments; the segments concatenate to the line and have at most 74 octets.
+    No `CR ∉ l` hypothesis is needed: a segment ending in CR gives 13 13 10, which splits after
+    the second 13 only. -/
+theorem fold_bytes_lines (l : Str) (hne : l ≠ []) (h : LF ∉ l) :
+    ∃ s ss, (s :: ss).flatten = l ∧ (∀ x ∈ s :: ss, octets x ≤ 74) ∧
+      splitCRLF (utf8 (foldline l)) = utf8 s :: ss.map (fun x => utf8 (SP :: x)) := by
+  obtain ⟨segs, h1, h2, h3⟩ := fold_segments l
+  have hseg : ∀ x ∈ segs, LF ∉ x := by
+    intro x hx hmem; apply h; rw [← h2]
+    exact List.mem_flatten.mpr ⟨x, hx, hmem⟩
+  cases segs with
+  | nil => exact absurd h2.symm hne
+  | cons s ss =>
+    refine ⟨s, ss, h2, h3, ?_⟩
+    have := splitCRLF_join s ss hseg [] (by simp)
+    rw [h1]
+    simpa [sep3] using this
+
+/-- Width clause of C06 on the octets that are written: every physical line (the octets between
+    two CR LF pairs) of a folded line has at most 75 octets. -/
+theorem fold_bytes_width (l : Str) (h : LF ∉ l) :
+    ∀ p ∈ splitCRLF (utf8 (foldline l)), p.length ≤ 75 := by
+  obtain ⟨segs, h1, h2, h3⟩ := fold_segments l
+  have hseg : ∀ x ∈ segs, LF ∉ x := by
+    intro x hx hmem; apply h; rw [← h2]
+    exact List.mem_flatten.mpr ⟨x, hx, hmem⟩
+  intro p hp
+  rw [h1] at hp
+  rcases splitCRLF_join_mem segs hseg p hp with rfl | ⟨x, hx, rfl | rfl⟩
+  · simp
+  · rw [utf8_len]; have := h3 x hx; omega
+  · rw [utf8_len, octets_cons]
+    have := h3 x hx
+    have : w SP = 1 := by decide
+    omega
+
+/-- Every physical line of a folded line is the UTF-8 encoding of whole characters: no
+    character's octets are separated by a fold. -/
+theorem fold_bytes_utf8 (l : Str) (h : LF ∉ l) :
+    ∀ p ∈ splitCRLF (utf8 (foldline l)), ∃ s : Str, p = utf8 s := by
+  obtain ⟨segs, h1, h2, _⟩ := fold_segments l
+  have hseg : ∀ x ∈ segs, LF ∉ x := by
+    intro x hx hmem; apply h; rw [← h2]
+    exact List.mem_flatten.mpr ⟨x, hx, hmem⟩
+  intro p hp
+  rw [h1] at hp
+  rcases splitCRLF_join_mem segs hseg p hp with rfl | ⟨x, _, rfl | rfl⟩
+  · exact ⟨[], rfl⟩
+  · exact ⟨x, rfl⟩
+  · exact ⟨SP :: x, rfl⟩
+
+/-! Non-vacuity and a concrete instance: 40 two-octet characters are written as physical lines
+    of 74 and 7 octets. -/
+example : (splitCRLF (utf8 (foldline (List.replicate 40 'é')))).map List.length = [74, 7] := by
+  decide
 
 end ICal.C06
